@@ -39,7 +39,19 @@ def success_edges(ctx, fn, pred):
             continue
         base, mode = ob
         if not pred(base):
-            continue
+            # a value assigned on several paths (e.g. the return place of an inlined helper): the outcome switch tests
+            # the call's result whenever one of the definitions is that call. Callers combine success edges with
+            # dominance by the call itself, so the other definitions (early returns) cannot fake a success.
+            hit = False
+            for v in subterms(base):
+                if v[0] == "var" and len(T.defs.get(v[1], ())) >= 2:
+                    for d in T.defs[v[1]]:
+                        if d[0] == "c":
+                            ct = T.call_term(fn.blocks[d[1]]["t"])
+                            if pred(ct) or pred(("await", ct)):
+                                hit = True
+            if not hit:
+                continue
         for tgt, labs in edges.items():
             if mode == "variant":
                 if set(labs) & GOOD and not (set(labs) - GOOD):
